@@ -386,8 +386,13 @@ def core_frames(db, blocks):
     for b, f in zip(blocks, objs):
         sigs = list(f.signals) if f is not None else list(db.signals)
         out.append({"bo": b["bo"], "sigs": [{"sg": sg, "comment": (s.comment or None),
-                                             "values": [[int(k), str(t)] for k, t in sorted(s.values.items(), key=lambda kv: int(kv[0]))]}
+                                             "values": [[int(k), str(t)] for k, t in sorted(s.values.items(), key=lambda kv: int(kv[0]))],
+                                             "float": bool(s.is_float),
+                                             "muxer": (s.muxer_for_signal if (f is not None and f.is_complex_multiplexed) else None),
+                                             "ranges": ([[int(a), int(b)] for a, b in s.mux_val_grp]
+                                                        if (f is not None and f.is_complex_multiplexed and s.muxer_for_signal is not None) else [])}
                                             for sg, s in zip(b["sigs"], sigs)],
+                    "groups": [{"name": g.name, "id": int(g.id), "members": [out_name(x.name) for x in g.signals]} for g in (f.signalGroups if f is not None else [])],
                     "more": list(f.transmitters[1:]) if f is not None else [], "comment": (f.comment or None) if f is not None else None})
     return out
 
@@ -403,6 +408,7 @@ def observe_core(c, r):
     out = list(section_lines(r))
     out += [l for l in lines if l.startswith("BO_TX_BU_ ")]
     vals = [l for l in lines if re.match(r"VAL_ \d+ ", l)]
+    vals += [l for l in lines if l.startswith("SIG_VALTYPE_ ")] + [l for l in lines if l.startswith("SIG_GROUP_ ")] + [l for l in lines if l.startswith("SG_MUL_VAL_ ")]
     for kind in ("CM_ BO_ ", "CM_ SG_ "):
         k = 0
         while k < len(lines):
